@@ -1,6 +1,6 @@
 (* C12 — correspondence: evaluate the model on the op sequences the implementation ran, and the
    property (frame, base-visible, non-interference by purging) on the implementation's outputs. *)
-From V.C12 Require Import Spec Model.
+From V.C12 Require Import Spec Model ShortNames.
 Open Scope Z_scope.
 
 Record ostep := { o_r : Z; o_d : Z; o_look : list (list Z) }.   (* o_look: one segment per VM slot *)
@@ -35,10 +35,19 @@ Fixpoint mk_obs (na nf : nat) (prev : list (list Z)) (raw : list (Z * Z * list s
   | (r, d, s) :: rest => let look := undelta na nf prev s in
                          {| o_r := r; o_d := d; o_look := look |} :: mk_obs na nf look rest
   end.
+(* an operation of a history as the implementation ran it: a plain operation, or `namespace ns; new n()` run on VM v --
+   the operation it stands for (GetOrLoadClass of the full name) depends on the world it is executed in *)
+Inductive xop := XO (o : op) | XNewShort (v : vmid) (ns n : name).
+Definition concrete (cp : cpath) (w : world) (x : xop) : op :=
+  match x with XO o => o | XNewShort v ns n => new_short cp w v ns n end.
+Definition xscope (x : xop) : option nat :=
+  match x with XO o => op_scope o | XNewShort (Temp t) _ _ => Some t | XNewShort Base _ _ => None end.
+Definition xscoped_to (t : nat) (x : xop) : bool := match xscope x with Some u => Nat.eqb u t | None => false end.
+
 Record case := {
   c_cp : list (name * cpent);          (* FindClassFile as reported by the implementation *)
   c_names : list name; c_consts : list name; c_files : list Z;
-  c_ops : list op;
+  c_ops : list xop;
   c_obs : list ostep;                  (* initial world, then one per op *)
   c_purge : option (nat * list ostep)  (* the same history with TempVM t's operations removed, run on the implementation *)
 }.
@@ -68,6 +77,10 @@ Fixpoint all2 {A B} (f : A -> B -> bool) (a : list A) (b : list B) : bool :=
 Definition look_ok (c : case) (w : world) (o : ostep) : bool :=
   all2 (fun v seg => all2 (fun al x => zin x al) (exp_slot c w v) seg) (slots w) (o_look o).
 Definition res_ok (r : result) (o : ostep) : bool :=
+  if o_r o =? 5 then
+    (* script-level `new Short()` inside a namespace: the definition of the class of the object created, -1 = failed *)
+    match r with RFound ((_ :: _) as l) => zin (o_d o) l | _ => o_d o =? -1 end
+  else
   if o_r o =? 4 then
     (* script-level observation (class_exists / interface_exists / new): only found-or-not is visible *)
     match r with RFound (_ :: _) => o_d o =? 1 | _ => o_d o =? 0 end
@@ -80,11 +93,11 @@ Definition res_ok (r : result) (o : ostep) : bool :=
   end.
 
 (* tie: walk the model along the ops; clause 1 = result differs, 2 = lookup vector differs *)
-Fixpoint tie (c : case) (w : world) (ops : list op) (obs : list ostep) : bool * bool :=
+Fixpoint tie (c : case) (w : world) (ops : list xop) (obs : list ostep) : bool * bool :=
   match ops, obs with
   | [], [] => (true, true)
-  | o :: ops', ob :: obs' =>
-      let (w', r) := step (cp_of (c_cp c)) w o in
+  | x :: ops', ob :: obs' =>
+      let (w', r) := step (cp_of (c_cp c)) w (concrete (cp_of (c_cp c)) w x) in
       let (a, b) := tie c w' ops' obs' in
       (res_ok r ob && a, look_ok c w' ob && b)
   | _, _ => (false, false)
@@ -106,12 +119,12 @@ Fixpoint same_except (c : case) (skip : option nat) (i : nat) (a b : list (list 
       && same_except c skip (S i) a' b'
   | _, _ => true
   end.
-Fixpoint frame_ok (c : case) (ops : list op) (obs : list ostep) : bool :=
+Fixpoint frame_ok (c : case) (ops : list xop) (obs : list ostep) : bool :=
   match ops, obs with
   | o :: ops', prev :: ((cur :: _) as obs') =>
       (match o with
-       | ODiscard t => same_except c (Some (S t)) 0 (o_look prev) (o_look cur)
-       | _ => match op_scope o with
+       | XO (ODiscard t) => same_except c (Some (S t)) 0 (o_look prev) (o_look cur)
+       | _ => match xscope o with
               | Some t => same_except c (Some (S t)) 0 (o_look prev) (o_look cur)
               | None => true
               end
@@ -144,7 +157,7 @@ Definition ostep_eq_except (c : case) (t : nat) (a b : ostep) : bool :=
 Definition purge_ok (c : case) : bool :=
   match c_purge c, c_obs c with
   | Some (t, pobs), o0 :: obs =>
-      let kept := map snd (filter (fun p => negb (scoped_to t (fst p))) (combine (c_ops c) obs)) in
+      let kept := map snd (filter (fun p => negb (xscoped_to t (fst p))) (combine (c_ops c) obs)) in
       all2 (ostep_eq_except c t) (o0 :: kept) pobs
   | _, _ => true
   end.
